@@ -26,6 +26,10 @@ func MonitorsFor(prop string) []Monitor {
 		return []Monitor{&monC11{}}
 	case "C12":
 		return []Monitor{&monC12{}}
+	case "C13":
+		return []Monitor{&monC13{}}
+	case "C14":
+		return []Monitor{&monC14{}}
 	case "C17":
 		return []Monitor{&monC17{}}
 	}
